@@ -204,6 +204,7 @@ def _run_derived(reg: Registry, I: Interp, c: Contract, fref: FuncRef):
     result = reg.make_value(I, c.returns, "result", env) if c.returns is not None else None
     env["result"] = result
     pfr = reg.contract_frame(I, fref.module, c.short, env, old_env)
+    pfr.locals["__derived__"] = True
     if c.post_setup:
         c.post_setup(I, pfr)
     for src in c.requires:
